@@ -817,6 +817,9 @@ the translated code; an edit of the C control flow or of an mpz call sequence ch
 equation (seeded change C17-m1: `mpz_set_ui(exp, 1UL << (e − 2))` is translated to the partial word shift `ulShl`, and
 `translated_sqrt_mod_p_eq` no longer checks). -/
 
+theorem translated_div_eq (q r a b : Int) : SqiGen.Intbig.ibz_div q r a b = ibzDiv a b := gen_ibz_div q r a b
+theorem translated_div_2exp_eq (q a : Int) (e : Nat) : SqiGen.Intbig.ibz_div_2exp q a e = ibzDiv2exp a e := gen_ibz_div_2exp q a e
+theorem translated_xgcd_eq (g u v a b : Int) : SqiGen.Intbig.ibz_xgcd g u v a b = ibzXgcd a b := gen_ibz_xgcd g u v a b
 theorem translated_mod_eq (r a b : Int) : SqiGen.Intbig.ibz_mod r a b = ibzMod a b := gen_ibz_mod r a b
 theorem translated_div_floor_eq (q r n d : Int) : SqiGen.Intbig.ibz_div_floor q r n d = ibzDivFloor n d :=
   gen_ibz_div_floor q r n d
